@@ -304,7 +304,7 @@ func c12Run(r *core.Run) {
 	}
 	r.Parallel(func(w, nw int, l *core.Local) {
 		for ji := w; ji < len(jobs); ji += nw {
-			if ji%64 == 0 && r.Expired() {
+			if (ji/nw)%4 == 0 && r.Expired() {
 				return
 			}
 			j := jobs[ji]
